@@ -813,11 +813,78 @@ func SliceSources(v ssa.Value) []ssa.Value {
 				walk(e)
 			}
 			return
+		case *ssa.Call:
+			// a helper that hands back (a leading part of) one of its slice
+			// parameters and does nothing else: first(list, n)
+			if arg := PrefixHelperArg(x); arg != nil {
+				walk(arg)
+				return
+			}
 		}
 		out = append(out, v)
 	}
 	walk(v)
 	return out
+}
+
+// PrefixHelperArg: call invokes a function with a body, free of stores, map
+// updates and calls other than len/min/max, every result of which is one of
+// its slice parameters or a reslice of it; returns the argument passed for
+// that parameter.
+func PrefixHelperArg(call *ssa.Call) ssa.Value {
+	g := call.Common().StaticCallee()
+	if g == nil || g.Blocks == nil || g.Signature.Results().Len() != 1 || len(g.Blocks) > 8 {
+		return nil
+	}
+	pure := true
+	ForEachInstr(g, true, func(in ssa.Instruction) {
+		switch x := in.(type) {
+		case *ssa.Store, *ssa.MapUpdate, *ssa.Go, *ssa.Defer, *ssa.Send:
+			pure = false
+		case *ssa.Call:
+			switch CallName(x) {
+			case "builtin.len", "builtin.min", "builtin.max", "builtin.cap":
+			default:
+				pure = false
+			}
+		}
+	})
+	if !pure {
+		return nil
+	}
+	var par *ssa.Parameter
+	for _, b := range g.Blocks {
+		ret, ok := b.Instrs[len(b.Instrs)-1].(*ssa.Return)
+		if !ok {
+			continue
+		}
+		v := ret.Results[0]
+		for d := 0; d < 4; d++ {
+			if sl, ok := v.(*ssa.Slice); ok {
+				v = sl.X
+				continue
+			}
+			if ct, ok := v.(*ssa.ChangeType); ok {
+				v = ct.X
+				continue
+			}
+			break
+		}
+		p, ok := v.(*ssa.Parameter)
+		if !ok || (par != nil && par != p) {
+			return nil
+		}
+		par = p
+	}
+	if par == nil {
+		return nil
+	}
+	for i, q := range g.Params {
+		if q == par && i < len(call.Common().Args) {
+			return call.Common().Args[i]
+		}
+	}
+	return nil
 }
 
 // ElementsFrom reports whether every element of slice v is an element of
